@@ -20,10 +20,33 @@
    if it still has AvailableToBorrow or other open positions; the books identity is REFUTED inside
    that class ([kf_C08_2], [c08_books_refuted_handover]) and proved outside it ([clean] histories;
    every history without hand-overs is clean: [c08_clean_without_handover]).
-   Not modelled: what happens to a handed-over position afterwards (auction close, CreteNewBorrow). *)
+
+   The life of a handed-over position afterwards is part of the histories too: market bids on its generation-2
+   auction (OAucBid: no effect on the lend state) and the closing bid (OAucClose: liquidationsV2
+   MsgCloseDutchAuctionForBorrow as coded; the auction's target debt, the owner and the returned collateral are
+   environment inputs, arbitrary in the theorems), and so are MsgRepayWithdraw, MsgFundModuleAccounts and
+   MsgFundReserveAccounts.  On this tree a closed position is never returned to the lend books: the close deletes
+   the borrow record (the borrower receives unsold collateral as plain coins from the auction module); the code
+   that would re-open a position (lend CreteNewBorrow) is called by the generation-1 modules only.
+   Finding C08-F3: the close forwards / books more than the auction recovered - the reserve share of the accrued
+   interest and cTokens / TotalInterestAccumulated for the rest of it although the target debt carries no
+   interest, and the E-MODE penalty although the ordinary one was collected.  The book identities are not
+   affected (they are over records only, [c08_close_books]); the close rule "the pools receive what the close
+   books" is REFUTED inside the class ([kf_C08_3], [c08_close_rule_refuted_interest], [..._emode]) and proved
+   outside it ([c08_close_rule]).  Finding C10-F7 seen from the lend books: [c08_close_stuck].
+   The ESM kill switch of an app (esm MsgKillSwitch, op OKill) and the depreciation of a pool (governance proposal,
+   op ODepreciate) are part of the state and of the histories; every handler's early return on them is modelled in
+   place ([c08_kill_switch_freezes], [c08_depreciated_pool_closed]).
+   The generation-1 hand-over message (x/liquidation MsgLiquidateBorrow, still routed; op OHandOverV1, its sell-off
+   amounts are environment inputs) is part of the histories: finding C08-F4, it flags the position and leaves the
+   principal in the totals borrowed ([kf_C08_4], [c08_books_refuted_v1_handover]); [clean] histories exclude the
+   hand-overs of classes 2 and 4.
+   Not modelled: the life of a generation-1 auction (x/auction lend bids, x/liquidation UnLiquidateLockedBorrows,
+   lend CreteNewBorrow), the block hook DeletePoolAndTransferInterest (it deletes pool records). *)
 From Comdex Require Import Lib.Base Lib.DecArith Lib.DecFacts Model.Lend Model.LendEx.
 From Comdex Require Import Proofs.LendProofs Proofs.LendProofsInv Proofs.LendProofsSide Proofs.LendProofsSteps Proofs.LendProofsSteps2
-     Proofs.LendProofsLiq Proofs.LendProofsHist Proofs.LendProofsLtv Proofs.LendProofsRules Proofs.LendProofsMain Proofs.LendProofsAvail.
+     Proofs.LendProofsLiq Proofs.LendProofsClose Proofs.LendProofsCloseRule Proofs.LendProofsHist Proofs.LendProofsLtv Proofs.LendProofsRules
+     Proofs.LendProofsMain Proofs.LendProofsAvail Proofs.LendProofsEsm.
 
 (* ---------------------------------------------------------------------------------------------- *)
 (* (a) published total lent = sum over the lend positions of the pool-asset of (available to
@@ -68,7 +91,8 @@ Proof.
 Qed.
 Print Assumptions c08_history.
 
-(* a history is clean when it contains no hand-over at all (the eleven lend messages and oracle moves) *)
+(* a history is clean when it contains no hand-over at all, of either generation (the lend messages, funding messages,
+   kill-switch and depreciation changes and oracle moves) *)
 Theorem c08_clean_without_handover : forall cfg st0 ops,
   forallb (fun o => negb (is_handover o)) ops = true -> clean cfg st0 ops.
 Proof. intros cfg st0 ops H. exact (clean_no_handover cfg ops st0 H). Qed.
@@ -89,6 +113,30 @@ Proof.
   split; [apply cleanb_ok; vm_compute; reflexivity|]. vm_compute. repeat split.
 Qed.
 Print Assumptions c08_books_refuted_handover.
+
+(* finding C08-F4: the generation-1 hand-over message x/liquidation MsgLiquidateBorrow is still routed.  It flags the
+   position but, unlike the (unwired) block-hook variant of the same module and unlike generation 2, leaves its principal
+   in the published totals borrowed: inside class 4 the identity of totals borrowed is false.  Witness (replayed on the
+   real keepers by harness/c08_close_test.go, case 3, same numbers): total borrowed 900 000 with the only position of the
+   pool-asset under liquidation.  (The unsold rest of the collateral, 650 793 651, stays pledged on the flagged position;
+   the model's sum of total lent does not count flagged positions, so [holds_C08_lend] is false after the message too -
+   by the property's own wording, "not handed over to a liquidation auction", that part is still counted.) *)
+Theorem c08_books_refuted_v1_handover :
+  exists cfg st0 ops o, empty_books st0 /\ clean cfg st0 ops /\ kf_C08_4 (run cfg st0 ops) o = true /\
+    is_ok (step cfg (run cfg st0 ops) o) = true /\
+    let st' := run cfg st0 (ops ++ [o]) in
+    holds_C08_borrow cfg st' = false /\
+    option_map b_liq (zget (borrows st') 1) = Some true /\
+    option_map s_bor (pget (sstats st') (1, 3)) = Some 900000 /\
+    bor_sum cfg (borrows st') 1 false (1, 3) = 0 /\
+    option_map (fun b => (b_in b, b_out b)) (zget (borrows st') 1) = Some (650793651, 900000) /\
+    option_map s_lend (pget (sstats st') (1, 2)) = Some 1650793651.
+Proof.
+  exists ex_cfg, ex_st0, ex_v1_prefix, ex_v1_handover.
+  split; [apply empty_booksb_ok; vm_compute; reflexivity|].
+  split; [apply cleanb_ok; vm_compute; reflexivity|]. vm_compute. repeat split.
+Qed.
+Print Assumptions c08_books_refuted_v1_handover.
 
 Example c08_history_nonvacuous :
   empty_booksb ex_st0 = true /\ cleanb ex_cfg ex_st0 ex_history = true /\
@@ -224,12 +272,178 @@ Proof. vm_compute. repeat split. Qed.
    is unchanged, a withdrawal is paid out of AvailableToBorrow only (which stays >= 0), and a lend
    position is deleted only when nothing is pledged against it *)
 Theorem c08_pledged_safe : forall cfg st o st',
-  Good cfg st -> step cfg st o = Ok st' -> pledged_rule st o st'.
+  Good cfg st -> step cfg st o = Ok st' -> pledged_rule cfg st o st'.
 Proof. intros cfg st o st' HG H. exact (step_pledged cfg st o st' HG H). Qed.
 Print Assumptions c08_pledged_safe.
 
 Example c08_pledged_nonvacuous :
   let st := run ex_cfg ex_st0 (ex_warm ++ [ex_borrow]) in
   step ex_cfg st ex_withdraw_pledged = Err 10 /\ step ex_cfg st ex_close_pledged = Err 19 /\
-  is_ok (step ex_cfg st ex_withdraw_free) = true.
+  is_ok (step ex_cfg st ex_withdraw_free) = true /\
+  (* RepayWithdraw: the position is closed and exactly its collateral (the whole lend position here) is withdrawn *)
+  let st' := apply_op ex_cfg st (ORepayWithdraw 1 1 bi0 0) in
+  is_ok (step ex_cfg st (ORepayWithdraw 1 1 bi0 0)) = true /\ map fst (borrows st') = [] /\ map fst (lends st') = [1; 2] /\
+  holds_C08_lend st' = true.
+Proof. vm_compute. repeat split. Qed.
+
+(* ---------------------------------------------------------------------------------------------- *)
+(* (e) the life of a handed-over position: the close of its generation-2 auction.  For EVERY environment input
+   (target debt, owner, returned collateral) a successful close keeps the invariant of the books (so Inv08_lend /
+   Inv08_borrow hold through closes, see [run_good]) and removes the position: its record, and its id in the user
+   mapping of the lend position it hung on (AvailableToBorrow and AmountIn of that lend position are untouched -
+   nothing is returned to it). *)
+Theorem c08_close_books : forall cfg st bid target owner back st',
+  Good cfg st -> step cfg st (OAucClose bid target owner back) = Ok st' ->
+  Good cfg st' /\ zget (borrows st') bid = None /\
+  exists b, zget (borrows st) bid = Some b /\ b_liq b = true /\
+    forall l', zget (lends st') (b_lend b) = Some l' ->
+      exists l, zget (lends st) (b_lend b) = Some l /\ l_bids l' = remove_sorted bid (l_bids l) /\
+                l_avail l' = l_avail l /\ l_in l' = l_in l.
+Proof.
+  intros cfg st bid target owner back st' HG H. cbn [step] in H.
+  split; [exact (proj1 (auc_close_good cfg _ _ _ _ _ _ HG H))|].
+  destruct (auc_close_gone cfg _ _ _ _ _ _ H) as (Hgone & Hl). split; [exact Hgone|].
+  unfold auc_close in H. destruct (zget (borrows st) bid) as [b|] eqn:Eb; [|discriminate].
+  exists b. split; [reflexivity|]. split; [destruct (b_liq b); [reflexivity|discriminate]|exact Hl].
+Qed.
+Print Assumptions c08_close_books.
+
+(* market bids that do not close the auction, MsgFundModuleAccounts and MsgFundReserveAccounts move coins only *)
+Theorem c08_coins_only : forall cfg st o st',
+  coins_only o = true -> step cfg st o = Ok st' ->
+  lends st' = lends st /\ borrows st' = borrows st /\ sstats st' = sstats st /\ lctr st' = lctr st /\ bctr st' = bctr st /\
+  prices st' = prices st.
+Proof. intros cfg st o st' Ho H. exact (coins_only_books cfg st o st' Ho H). Qed.
+Print Assumptions c08_coins_only.
+
+(* the flows of the asset out at a close, exactly: the pools receive the target debt, forward the penalty (recomputed:
+   e-mode penalty for an e-mode pair) and the reserve share of the interest, TotalInterestAccumulated grows by the
+   rest of the interest; [extra >= 0]: coins of the same denom that reach a pool account on the way (the returned
+   collateral when the owner is a pool account, minted cTokens when the cToken denom is the asset itself) *)
+Theorem c08_close_flow : forall cfg st bid target owner back st' b pr,
+  pools_wf cfg -> step cfg st (OAucClose bid target owner back) = Ok st' ->
+  zget (borrows st) bid = Some b -> zget (c_pairs cfg) (b_pair b) = Some pr ->
+  exists pen extra,
+    close_penalty cfg pr b = Ok pen /\ 0 <= extra /\ 0 <= pen /\
+    ptotal cfg (bnk st') (pr_out pr) - ptotal cfg (bnk st) (pr_out pr)
+      = target - pen - (if dtrunc_int (b_res b) >? 0 then dtrunc_int (b_res b) else 0) + extra /\
+    tia_of st' (pr_out_pool pr, pr_out pr) - tia_of st (pr_out_pool pr, pr_out pr)
+      = (if dtrunc_int (b_int b - b_res b) >? 0 then dtrunc_int (b_int b - b_res b) else 0).
+Proof. intros cfg st bid target owner back st' b pr Hwf H Eb Ep. exact (auc_close_flow cfg Hwf _ _ _ _ _ _ b pr H Eb Ep). Qed.
+Print Assumptions c08_close_flow.
+
+(* the close rule, outside known-finding class 3: the pools' holdings of the asset out grow by at least the
+   principal that returns plus what the close adds to TotalInterestAccumulated, when the target debt is the one the
+   hand-over computes (principal + principal x ordinary penalty) *)
+Theorem c08_close_rule : forall cfg st bid target owner back st' b,
+  pools_wf cfg -> step cfg st (OAucClose bid target owner back) = Ok st' ->
+  zget (borrows st) bid = Some b -> 0 <= b_out b ->
+  kf_C08_3 cfg st (OAucClose bid target owner back) = false ->
+  holds_C08_target cfg st bid target = true ->
+  holds_C08_close cfg st st' bid = true.
+Proof. intros cfg st bid target owner back st' b Hwf H Eb Ho Hk Ht. exact (close_rule cfg Hwf _ _ _ _ _ _ b H Eb Ho Hk Ht). Qed.
+Print Assumptions c08_close_rule.
+
+Example c08_close_rule_nonvacuous :
+  let st := run ex_cfg ex_st0 ex_close_plain_prefix in
+  pools_wfb ex_cfg = true /\ cleanb ex_cfg ex_st0 ex_close_plain_prefix = true /\
+  is_ok (step ex_cfg st ex_close_plain) = true /\ kf_C08_3 ex_cfg st ex_close_plain = false /\
+  holds_C08_target ex_cfg st 1 945000 = true /\ option_map b_out (zget (borrows st) 1) = Some 900000 /\
+  holds_C08_close ex_cfg st (apply_op ex_cfg st ex_close_plain) 1 = true /\
+  ptotal ex_cfg (bnk st) 3 = 999100000 /\ ptotal ex_cfg (bnk (apply_op ex_cfg st ex_close_plain)) 3 = 1000000000 /\
+  map fst (borrows (apply_op ex_cfg st ex_close_plain)) = [] /\
+  holds_C08_lend (apply_op ex_cfg st ex_close_plain) = true /\ holds_C08_borrow ex_cfg (apply_op ex_cfg st ex_close_plain) = true.
+Proof. vm_compute. repeat split. Qed.
+
+(* finding C08-F3 (a): inside class 3 the rule is false.  Witness (replayed on the real keepers by
+   harness/c08_close_test.go, case 0, same numbers): 152.83 coins of interest accrued (reserve share 152.71), the
+   auction pays 945 000 = 900 000 + 5 %, the close forwards 45 000 + 152: the pool of asset 3 holds 999 999 848 coins
+   against a published total lent of 1 000 000 000 with nothing lent out, and the only lender's CloseLend is refused
+   ("lending pool insufficient", error 13) *)
+Theorem c08_close_rule_refuted_interest :
+  exists cfg st0 ops o, empty_books st0 /\ clean cfg st0 ops /\ pools_wf cfg /\
+    kf_C08_3 cfg (run cfg st0 ops) o = true /\ is_ok (step cfg (run cfg st0 ops) o) = true /\
+    holds_C08_target cfg (run cfg st0 ops) 1 945000 = true /\
+    let st' := apply_op cfg (run cfg st0 ops) o in
+    holds_C08_close cfg (run cfg st0 ops) st' 1 = false /\
+    holds_C08_lend st' = true /\ holds_C08_borrow cfg st' = true /\
+    ptotal cfg (bnk st') 3 = 999999848 /\
+    option_map (fun s => (s_lend s, s_bor s, s_sbor s)) (pget (sstats st') (1, 3)) = Some (1000000000, 0, 0) /\
+    step cfg st' (OCloseLend 2 1 0) = Err 13.
+Proof.
+  exists ex_cfg, ex_st0, ex_close_interest_prefix, ex_close_interest.
+  split; [apply empty_booksb_ok; vm_compute; reflexivity|].
+  split; [apply cleanb_ok; vm_compute; reflexivity|]. split; [apply pools_wfb_ok; vm_compute; reflexivity|].
+  vm_compute. repeat split.
+Qed.
+Print Assumptions c08_close_rule_refuted_interest.
+
+(* finding C08-F3 (b): an e-mode pair whose e-mode penalty (0.08) is above the ordinary one (0.05), closed without any
+   interest: the auction collected 1 050 000 = 1 000 000 + 5 %, the close forwards 80 000: the pool ends 30 000 short *)
+Theorem c08_close_rule_refuted_emode :
+  exists cfg st0 ops o, empty_books st0 /\ clean cfg st0 ops /\ pools_wf cfg /\
+    kf_C08_3 cfg (run cfg st0 ops) o = true /\ is_ok (step cfg (run cfg st0 ops) o) = true /\
+    holds_C08_target cfg (run cfg st0 ops) 1 1050000 = true /\
+    option_map (fun b => (dtrunc_int (b_int b), dtrunc_int (b_res b))) (zget (borrows (run cfg st0 ops)) 1) = Some (0, 0) /\
+    let st' := apply_op cfg (run cfg st0 ops) o in
+    holds_C08_close cfg (run cfg st0 ops) st' 1 = false /\
+    ptotal cfg (bnk st') 3 = 999970000 /\
+    option_map (fun s => (s_lend s, s_bor s, s_sbor s)) (pget (sstats st') (1, 3)) = Some (1000000000, 0, 0).
+Proof.
+  exists ex_cfg, ex_st0, ex_close_emode_prefix, ex_close_emode.
+  split; [apply empty_booksb_ok; vm_compute; reflexivity|].
+  split; [apply cleanb_ok; vm_compute; reflexivity|]. split; [apply pools_wfb_ok; vm_compute; reflexivity|].
+  vm_compute. repeat split.
+Qed.
+Print Assumptions c08_close_rule_refuted_emode.
+
+(* finding C10-F7 seen from the lend books: a cross-pool position whose lend record the hand-over deleted can never
+   be closed - whatever the auction supplies, the closing bid does not succeed (the bank keeper panics on the module
+   account ""), so the position stays flagged and outside the published totals for ever *)
+Theorem c08_close_stuck : forall cfg st bid b target owner back,
+  zget (borrows st) bid = Some b -> b_liq b = true -> 0 < b_brd b -> zget (lends st) (b_lend b) = None ->
+  apply_op cfg st (OAucClose bid target owner back) = st.
+Proof.
+  intros cfg st bid b target owner back Eb Eq Hb El. unfold apply_op. cbn [step].
+  destruct (auc_close cfg st bid target owner back) as [st'| |] eqn:E; try reflexivity.
+  exfalso. exact (auc_close_stuck cfg st bid b target owner back Eb Eq Hb El st' E).
+Qed.
+Print Assumptions c08_close_stuck.
+
+Example c08_close_stuck_nonvacuous :
+  let st := run ex_cfg ex_st0 ex_close_stuck_prefix in
+  cleanb ex_cfg ex_st0 ex_close_stuck_prefix = true /\
+  option_map (fun b => (b_liq b, b_brd b, b_lend b)) (zget (borrows st) 1) = Some (true, 1000000, 3) /\
+  zget (lends st) 3 = None /\ step ex_cfg st ex_close_stuck = Panic.
+Proof. vm_compute. repeat split. Qed.
+
+(* ---------------------------------------------------------------------------------------------- *)
+(* (f) the ESM kill switch and pool depreciation, as the handlers read them.  With the kill switch on for every
+   app, no lend message (all eleven, RepayWithdraw) and no hand-over changes anything: the books are frozen; what
+   still moves the state: bids on / closes of running auctions, the funding messages, oracle moves, the switch *)
+Theorem c08_kill_switch_freezes : forall cfg st o,
+  (forall a, is_killed st a = true) -> lend_msg o = true -> apply_op cfg st o = st.
+Proof. intros cfg st o HK Ho. exact (kill_switch_freezes cfg st HK o Ho). Qed.
+Print Assumptions c08_kill_switch_freezes.
+
+(* a depreciated pool takes no new funds and no new debt: Lend, Deposit, Borrow, DepositBorrow, Draw and
+   BorrowAlternate on it leave the state unchanged (Withdraw, CloseLend, Repay, CloseBorrow are not stopped) *)
+Theorem c08_depreciated_pool_closed : forall cfg st p o,
+  is_depr st p = true -> inflow_on st p o = true -> apply_op cfg st o = st.
+Proof. intros cfg st p o HD Ho. exact (depreciated_pool_closed cfg st p HD o Ho). Qed.
+Print Assumptions c08_depreciated_pool_closed.
+
+Example c08_esm_nonvacuous :
+  let st := run ex_cfg ex_st0 (ex_warm ++ [ex_borrow]) in
+  (* the switch of the lend app goes on: the draw that was admissible is refused (error 32); off again: accepted *)
+  let stk := run ex_cfg st [OKill true 1 true] in
+  killed stk = [1] /\ is_ok (step ex_cfg st (ORepay 1 1 3 400000 bi0)) = true /\
+  step ex_cfg stk (ORepay 1 1 3 400000 bi0) = Err 32 /\ step ex_cfg stk ex_withdraw_free = Err 32 /\
+  step ex_cfg stk (OKill false 1 false) = Err 60 /\
+  is_ok (step ex_cfg (run ex_cfg stk [OKill true 1 false]) (ORepay 1 1 3 400000 bi0)) = true /\
+  (* pool 1 depreciated: no new deposit (error 31), withdrawing still works *)
+  let std := run ex_cfg st [ODepreciate 1] in
+  depr std = [1] /\ inflow_on std 1 (ODeposit 1 2 1 5 0) = true /\ step ex_cfg std (ODeposit 1 2 1 5 0) = Err 31 /\
+  is_ok (step ex_cfg st (ODeposit 1 2 1 5 0)) = true /\ is_ok (step ex_cfg std ex_withdraw_free) = true /\
+  step ex_cfg st (ODepreciate 3) = Err 2.
 Proof. vm_compute. repeat split. Qed.
